@@ -297,15 +297,19 @@ PROPS['C12'] = dict(
           'in one call, flushes, pulls the CONNACK in through the packet reader (reads of 1, 1 and 3 bytes), decodes and accepts '
           'it, and reports `resumed` exactly when the client held session state (C12_connect_succeeds, '
           'C12_connect_action_succeeds; hypotheses shown satisfiable on a reachable state with a half-sent retained publish, '
-          'C12_connect_hyps_met). REFUTED for a full arena: C12_refuted_full_arena exhibits a reachable world (one unacknowledged '
+          'C12_connect_hyps_met); and the same for EVERY conformant answer of the broker - any successful CONNACK the handshake '
+          'accepts (either session-present value; any property list, in any order, with user properties; the acceptance condition is '
+          'exact: C08_connack_accepted_iff), of any length, assembled by the packet reader on a behaving transport '
+          '(C12_connect_succeeds_any, on top of the reader liveness lemma FillWhole.fill_whole and the framing invariant of C15; '
+          'computed instance C12_connect_any_example). REFUTED for a full arena: C12_refuted_full_arena exhibits a reachable world (one unacknowledged '
           'PUBLISH in a 48-byte arena) in which connect() over a healthy transport to a conformant broker fails and leaves the '
           'arena as full as before (known finding K12). Tied to the code by a fault sweep (fail / zero / drop at every I/O index '
           'of generated histories, including rejected, garbled, illegal and missing CONNACKs) ending in a connect() to a conformant '
           'automatic broker, with a monitor that demands success, a whole CONNECT first, nothing partial carried over and a usable '
           'session.',
-    note='The positive theorem covers the model broker of mode 2 (a bare CONNACK, reason 0, no properties, session-present = not '
-         'clean-start) on a transport that accepts every write whole; CONNACKs carrying properties and fragmented transports are '
-         'covered by the acceptance lemmas, the reader-confluence theorems of C15 and the correspondence sweep. Trusted: Coq kernel '
+    note='The positive theorems assume a transport that accepts every write whole and delivers what has arrived (script []); '
+         'arbitrary read fragmentation is covered by the framing theorems of C15 (the packet assembled is a function of the stream) '
+         'and the correspondence sweep. Trusted: Coq kernel '
          'and VM (the refutation and the non-vacuity example are computed), model, extraction, harness incl. its conformant-broker '
          'mode, Python CONNACK conformance test. No axioms.')
 
@@ -320,11 +324,20 @@ PROPS['C15'] = dict(
           'that hands over any 1 <= cnt <= window bytes at each read, produces the same packets (length and decode), the same '
           'final reader state and the same unread rest — the big-step run relation is a function of (reader, stream), by a '
           'confluence argument on the body phase and the fact that the header phase asks for one byte at a time; the executable '
-          'loop refines the relation; the pieces written from the recorded offset concatenate to the packet. Tied to the code by the '
+          'loop refines the relation; the pieces written from the recorded offset concatenate to the packet. At the level of the '
+          'machine: in EVERY reachable world (any program, any script of read sizes down to one byte and splits inside the fixed '
+          'header, read timing, faults, dropped futures, reconnects) the reader holds a prefix of the inbound byte stream no longer '
+          'than the packet being assembled and its recorded length is what the stream\'s own header says '
+          '(C15_reader_invariant_reachable); hence every packet the session handles is exactly the next frame of the stream, '
+          'handling it consumes exactly that frame, and reads never change the stream (C15_handled_packet_is_next_frame, '
+          'C15_frame_length_from_stream, C15_process_consumes_frame, C15_reads_conserve_stream): inbound framing is a function of '
+          'the byte stream alone. Tied to the code by the '
           'reader hook (same stream, generated fragment lists) and by twin runs: the same program and inbound stream executed with '
           'whole and with randomly fragmented reads and writes (1, 2, 3, 5 bytes) on the implementation and on the model, comparing '
           'operation results, delivered messages and the outbound byte stream.',
-    note='Partial: the relation between two whole executions is checked on runs, proved for the reader and the write arithmetic. '
+    note='Partial: inbound framing is proved for whole executions of the machine; the equality of results and of the outbound '
+         'byte stream of two whole executions under different write fragmentations is checked on twin runs, proved for the write '
+         'arithmetic. '
          'Trusted: Coq kernel, model, extraction, harness, reader hook. No axioms.')
 
 PROPS['C13'] = dict(
@@ -362,13 +375,19 @@ PROPS['C16'] = dict(
           'subscribe / unsubscribe end without exhausting their fuel once the fuel exceeds work + 5 (the 5 pays for the one '
           'PINGREQ that may be queued) - every iteration either leaves the loop or strictly lowers that measure, a step reporting '
           '"nothing done" cannot be selected (C16_drive_loop_terminates, C16_flush_outbound_terminates, C16_op_drive_terminates, '
-          'with a computed example on a resumed connection). Quiescence itself is checked: every generated '
+          'with a computed example on a resumed connection). Towards the broker: the packet reader on a behaving transport assembles '
+          'exactly the packet whose bytes have arrived and stops (C16_reader_completes_arrived_packet, any length up to the receive '
+          'buffer); poll() with nothing left to write and no timer pending reads precisely that packet '
+          '(C16_poll_reads_arrived_packet); and one exchange end to end: a PUBACK that has arrived completes its QoS 1 publish in '
+          'ONE poll() - read, decoded, the retained PUBLISH released with every other retained packet untouched, the quota slot '
+          'returned, progress reported, still nothing to write (C16_poll_completes_puback, computed instance C16_puback_example). '
+          'Quiescence of arbitrary backlogs is checked: every generated '
           'history (faults, cancellations, reconnects, small arenas, Receive Maximum pressure), followed by the benign continuation - '
           'transport healed, broker answering every packet including the CONNECT (session present iff no clean start), reconnect, 40 '
           'polls - must end live with no owed acknowledgement, no pending PUBREL, a publish-quiescent session and no pending handle; a '
           'poll that returns without a message must have made wire progress; an operation performing 50000 I/O calls (model: fuel) is '
           'reported as spinning.',
-    note='Partial: termination of the engine loops is a theorem (strictly decreasing measure, no assumption on the transport); that the broker\'s answers then arrive and complete every handle within a bounded number of polls is a check over generated histories. '
+    note='Partial: termination of the engine loops is a theorem (strictly decreasing measure, no assumption on the transport); a PUBACK completing its publish in one poll is a theorem (transport behaving, no keep-alive timer pending); that the answers to an arbitrary backlog (QoS 2, subscriptions, replays after reconnect) complete every handle within a bounded number of polls is a check over generated histories. '
          'Trusted: Coq kernel, model, extraction, harness with its healing action and automatic broker. No axioms. '
          'Known finding K12 (arena too full to reconnect) blocks the drain and is reported as KNOWN-FINDING.')
 
